@@ -576,9 +576,12 @@ def run(ctx):
                     note(kind, f"{WVAR}={st['ew']} {SVAR}={st['es']} is outside the documented ranges but run() does not raise the documented "
                                f"configuration error 0-4-1-1: {ecl} {sres['runs'][0].get('msg', '')[:110]}",
                          {"steps": rep_steps, "expected": "RunTimeError 0-4-1-1", "observed": str(ecl)})
-                if documented and (ecl == "RawBinder" or (isinstance(ecl, tuple) and ecl[0] in ("CfgRejected", "Other"))):
-                    ew_eff = doc[WVAR]["default"] if st["ew"] is None else doc[WVAR]["disable_means"] if st["ew"] == doc[WVAR]["disable"] else st["ew"]
-                    es_eff = doc[SVAR]["default"] if st["es"] is None else doc[SVAR]["disable_means"] if st["es"] == doc[SVAR]["disable"] else st["es"]
+                ew_eff = doc[WVAR]["default"] if st["ew"] is None else doc[WVAR]["disable_means"] if st["ew"] == doc[WVAR]["disable"] else st["ew"]
+                es_eff = doc[SVAR]["default"] if st["es"] is None else doc[SVAR]["disable_means"] if st["es"] == doc[SVAR]["disable"] else st["es"]
+                # a width below the scale cannot be a DECIMAL type: there the configuration error (naming the width) is the right answer
+                if documented and ew_eff < es_eff and ecl == ("CfgRejected", "VarWidth"):
+                    pass
+                elif documented and (ecl == "RawBinder" or (isinstance(ecl, tuple) and ecl[0] in ("CfgRejected", "Other"))):
                     kind = "width-below-scale-raw-duckdb" if ew_eff < es_eff and ecl == "RawBinder" else f"documented-setting-fails:{ecl}"
                     note(kind, f"{WVAR}={st['ew']} {SVAR}={st['es']} are both inside their documented ranges (effective DECIMAL({ew_eff},{es_eff})) but "
                                f"run() fails with {ecl}: {sres['runs'][0].get('msg', '')[:110]} — neither the documented configuration error nor a result",
